@@ -7,6 +7,8 @@ import (
 	"bytes"
 	"encoding/hex"
 	"fmt"
+	"github.com/cosmos/cosmos-proto/anyutil"
+	"google.golang.org/protobuf/types/known/anypb"
 	"math/rand"
 	"reflect"
 	"strconv"
@@ -565,6 +567,8 @@ func codecCase(rep *Report, s *glue.Subject, d MD, idx int) {
 					case sz != len(exp2):
 						rep.Violate("C04", "codec/after-mutation/size", tn, fmt.Sprintf("%s: Size=%d after nested messages changed in place, the value now encodes to %d bytes", en.name, sz, len(exp2)), rc)
 					case !bytes.Equal(b, exp2):
+						// (C05: the bytes depend on the message's past, not on its value: an equal message built afresh encodes to exp2)
+						rep.Violate("C05", "codec/after-mutation/det-not-unique", tn, fmt.Sprintf("%s: a message that was sized, then changed in place, encodes differently from an equal message built afresh: %s", en.name, firstDiff(b, exp2)), rc)
 						rep.Violate("C02", "codec/after-mutation/det-bytes", tn, fmt.Sprintf("%s after nested messages changed in place: %s", en.name, firstDiff(b, exp2)), rc)
 						rep.Violate("C04", "codec/after-mutation/det-bytes", tn, fmt.Sprintf("%s after nested messages changed in place: %s", en.name, firstDiff(b, exp2)), rc)
 					}
@@ -633,7 +637,15 @@ func codecCase(rep *Report, s *glue.Subject, d MD, idx int) {
 							b, e = detOpts.Marshal(H)
 						}
 					case 3:
-						b, e = detOpts.MarshalAppend(make([]byte, 0, 8), H)
+						if (k+hi)%8 == 3 {
+							// the repository's own packing helper, given the same options
+							dst := &anypb.Any{}
+							e = anyutil.MarshalFrom(dst, H, detOpts)
+							b = dst.Value
+							rep.Count("C05", "det-marshals-anyutil.MarshalFrom", 1)
+						} else {
+							b, e = detOpts.MarshalAppend(make([]byte, 0, 8), H)
+						}
 					}
 				})
 				if pan || e != nil {
